@@ -125,7 +125,7 @@ func (th *thread) point(desc string) {
 		return
 	}
 	th.reschedule(false)
-	if r.cfg.Race || true {
+	if len(r.schedLog) < 400 {
 		r.schedLog = append(r.schedLog, th.name+": "+desc)
 	}
 }
@@ -430,12 +430,12 @@ func chanSend(fr *frame, c *channel, v value) {
 		th.point("send on nil chan")
 		th.block("send on nil channel", func() bool { return false })
 	}
-	th.point(fmt.Sprintf("send ch%d", c.id))
+	th.point("chan send")
 	if c.closed {
 		panic(rtPanic("send on closed channel"))
 	}
 	if c.capacity > 0 {
-		th.block(fmt.Sprintf("chan send ch%d", c.id), func() bool { return c.closed || len(c.buf) < c.capacity })
+		th.block("chan send", func() bool { return c.closed || len(c.buf) < c.capacity })
 		if c.closed {
 			panic(rtPanic("send on closed channel"))
 		}
@@ -445,7 +445,7 @@ func chanSend(fr *frame, c *channel, v value) {
 	}
 	it := &sendItem{v: copyVal(v), th: th, vc: th.vc.release(th)}
 	c.sendq = append(c.sendq, it)
-	th.block(fmt.Sprintf("chan send ch%d", c.id), func() bool { return it.taken || c.closed })
+	th.block("chan send", func() bool { return it.taken || c.closed })
 	if !it.taken {
 		panic(rtPanic("send on closed channel"))
 	}
@@ -486,9 +486,9 @@ func chanRecv(fr *frame, c *channel, commaOk bool, elemT types.Type) value {
 		th.point("recv on nil chan")
 		th.block("receive on nil channel", func() bool { return false })
 	}
-	th.point(fmt.Sprintf("recv ch%d", c.id))
+	th.point("chan recv")
 	c.recvWaiters++
-	th.block(fmt.Sprintf("chan receive ch%d", c.id), c.recvReady)
+	th.block("chan receive", c.recvReady)
 	c.recvWaiters--
 	v, ok := c.take(th)
 	if !ok {
@@ -505,7 +505,7 @@ func chanClose(fr *frame, c *channel) {
 	if c == nil {
 		panic(rtPanic("close of nil channel"))
 	}
-	th.point(fmt.Sprintf("close ch%d", c.id))
+	th.point("chan close")
 	if c.closed {
 		panic(rtPanic("close of closed channel"))
 	}
